@@ -116,6 +116,19 @@ fn readback(ctx: &mut Ctx, p: &Program, ser_label: &'static str, bytes: &[u8], e
     let rb = guard(|| {
         Message::from_bytes(bytes).map(|m| {
             let attrs: Vec<(u16, Vec<u8>)> = m.iter_attributes().map(|a| (a.get_type().value(), a.value.to_vec())).collect();
+            // reading by position (nth / skip / last / count) reads the same attributes back
+            let n = attrs.len();
+            let mut by_position_ok = m.iter_attributes().count() == n && m.iter_attributes().last().map(|a| a.get_type().value()) == attrs.last().map(|a| a.0);
+            if n <= 48 {
+                for k in 0..=n {
+                    let got = m.iter_attributes().nth(k).map(|a| (a.get_type().value(), a.value.to_vec()));
+                    let rest: Vec<u16> = m.iter_attributes().skip(k).map(|a| a.get_type().value()).collect();
+                    if got.as_ref() != attrs.get(k) || rest != attrs[k.min(n)..].iter().map(|a| a.0).collect::<Vec<_>>() {
+                        by_position_ok = false;
+                    }
+                }
+            }
+            let attrs = if by_position_ok { attrs } else { vec![(0xdead, b"nth/skip/last/count disagree with sequential iteration".to_vec())] };
             (class_num(m.class()), m.method(), imp::tid_to_bytes(m.transaction_id()), attrs, m.validate_integrity(&imp::to_impl_creds(&p.creds)).map_err(|e| format!("{e:?}")))
         })
     });
